@@ -21,6 +21,7 @@ PROPS = {
         gen=[dict(module="Gen_Packet", cfg="Gen_Packet.cfg", out="packet_cases.ndjson",
                   simulate=dict(quick="num=1500", thorough="num=25000", depth=40))],
         topic="compress",
+        min_counters={"distinct_rr_types": 35},
         rules=["NoPanic", "BuildOk", "CompDecodes", "CompShorter", "CompRoundTrip"],
         shards=14,
     ),
@@ -49,6 +50,7 @@ PROPS = {
         gen=[dict(module="Gen_Packet", cfg="Gen_Packet.cfg", out="packet_cases.ndjson",
                   simulate=dict(quick="num=1500", thorough="num=25000", depth=40))],
         topic="packet",
+        min_counters={"distinct_rr_types": 35},
         rules=["NoPanic", "BuildOk", "RoundTrip"],
         shards=12,
     ),
